@@ -30,6 +30,7 @@ type EntrySpec struct {
 	MaxSteps      int            `json:"max_steps"`
 	PoolAdv       bool           `json:"pool_adversarial"`
 	FixedClock    bool           `json:"fixed_clock"`
+	PromptClock   bool           `json:"prompt_clock"`
 	InvisAtomics  bool           `json:"invisible_atomics"`
 	MapReverse    bool           `json:"map_reverse"`
 	ThoroughOnly  bool           `json:"thorough_only"`
@@ -267,6 +268,7 @@ func (c *checker) runEntry(p *Program, u UnitSpec, e EntrySpec, work string) {
 	cfg.MaxSteps = e.MaxSteps
 	cfg.PoolAdversarial = e.PoolAdv
 	cfg.FixedClock = e.FixedClock
+	cfg.PromptClock = e.PromptClock
 	cfg.InvisibleAtomics = e.InvisAtomics
 	cfg.MapReverse = e.MapReverse
 	cfg.SymIndexLimit = e.SymIndexLimit
